@@ -11,6 +11,7 @@
     of every fresh variable, in creation order) and writes the k-th fresh variable directly as
     the bound variable [^0.k]. *)
 
+From Coq Require Import PeanoNat.
 From Chalk Require Import Ir.Syntax Ir.Fold Agg.Instance.
 
 Definition binders := list (vkind * N).
@@ -129,8 +130,9 @@ Proof.
   cbn [au_ty]. destruct (head_eqb ha hb); [| reflexivity]. destruct (hclass_of ha); try reflexivity.
   destruct (Nat.eqb (length ca) (length cb)); [| reflexivity]. f_equal.
   generalize cb st. clear cb st. induction ca as [| x r IH]; intros cb st; destruct cb as [| y r']; cbn [au_list]; try reflexivity.
-  unfold au_garg. f_equal.
-  destruct (kind_of x), (kind_of y); try reflexivity.
+  unfold au_garg.
+  match goal with |- rbind ?X _ = rbind ?Y _ => change Y with X; destruct X as [gs1 | e]; cbn [rbind]; [| reflexivity] end.
+  rewrite IH. reflexivity.
 Qed.
 
 (** The pair-level entry point used by the correspondence: one fresh table. *)
@@ -205,7 +207,7 @@ Fixpoint ctys_ok (t : tm) : Prop :=
 
 Lemma ctys_ok_node h cs : ctys_ok (Node h cs) <-> (head_kind h = KConst -> cs = [usize_ty]) /\ Forall ctys_ok cs.
 Proof.
-  cbn [ctys_ok]. split; intros [H1 H2]; (split; [assumption |]).
+  cbn [ctys_ok]. split; intros [H1 H2]; (split; [assumption |]); clear H1.
   - induction cs as [| x r IH]; constructor; [apply H2 | apply IH, H2].
   - induction H2 as [| x r Hx _ IH]; [exact I | split; assumption].
 Qed.
@@ -221,7 +223,7 @@ Fixpoint flat (t : tm) : Prop :=
 
 Lemma flat_node h cs : flat (Node h cs) <-> binds h = false /\ Forall flat cs.
 Proof.
-  cbn [flat]. split; intros [H1 H2]; (split; [assumption |]).
+  cbn [flat]. split; intros [H1 H2]; (split; [assumption |]); clear H1.
   - induction cs as [| x r IH]; constructor; [apply H2 | apply IH, H2].
   - induction H2 as [| x r Hx _ IH]; [exact I | split; assumption].
 Qed.
@@ -361,8 +363,8 @@ Proof.
         inversion EL; subst. inversion Wa; subst. inversion Wb; subst.
         assert (G1 : gen_spec st st1 (fun τ => subst τ 0 g1 = Ok x) (fun τ => subst τ 0 g1 = Ok y)).
         { unfold au_garg in E1. destruct (kind_of x) eqn:Kx, (kind_of y) eqn:Ky; try discriminate.
-          - eapply Hx; eassumption.
-          - inversion E1. rewrite <- H0, <- H5. replace g1 with (fst (au_lt u x y st)) by (rewrite H0; reflexivity).
+          - eapply Hx; first [eassumption | reflexivity].
+          - inversion E1. replace g1 with (fst (au_lt u x y st)) by (rewrite H0; reflexivity).
             replace st1 with (snd (au_lt u x y st)) by (rewrite H0; reflexivity). apply au_lt_gen; assumption.
           - inversion E1. replace g1 with (fst (au_const u x y st)) by (rewrite H0; reflexivity).
             replace st1 with (snd (au_const u x y st)) by (rewrite H0; reflexivity). apply au_const_gen; assumption. }
@@ -381,7 +383,7 @@ Lemma au_garg_gen u a b st g st' :
   gen_spec st st' (fun τ => subst τ 0 g = Ok a) (fun τ => subst τ 0 g = Ok b).
 Proof.
   intros Wa Wb E. unfold au_garg in E. destruct (kind_of a) eqn:Ka, (kind_of b) eqn:Kb; try discriminate.
-  - eapply au_ty_gen; eassumption.
+  - exact (au_ty_gen _ _ _ _ _ _ Ka Kb Wa Wb E).
   - inversion E. replace g with (fst (au_lt u a b st)) by (rewrite H0; reflexivity).
     replace st' with (snd (au_lt u a b st)) by (rewrite H0; reflexivity). apply au_lt_gen; assumption.
   - inversion E. replace g with (fst (au_const u a b st)) by (rewrite H0; reflexivity).
@@ -421,7 +423,7 @@ Proof.
     inversion HM; subst.
     assert (G1 : gen_spec st st1 (fun τ => subst τ 0 g1 = Ok p1) (fun τ => subst τ 0 g1 = Ok p2)).
     { destruct (kind_of p1) eqn:K1; try (eapply au_garg_gen; eassumption).
-      inversion E1; subst. apply gen_fresh_var; intros τ H; apply subst_var_hit; try assumption; [rewrite K1 | rewrite <- Kp, K1]; reflexivity. }
+      inversion E1; subst. apply gen_fresh_var; intros τ H; apply subst_var_hit; try assumption; cbn [sort_kind]; congruence. }
     eapply gen_spec_cons; [exact G1 | eapply IH; eassumption | |]; intros τ H1' H2'; constructor; assumption.
 Qed.
 
@@ -456,13 +458,13 @@ Lemma au_const_shape u a b st :
 Proof.
   intros Ka Wa.
   assert (CT : const_ty a = usize_ty).
-  { destruct a as [| d i c | h cs]; [discriminate | exact Wa |]. apply ctys_ok_node in Wa. destruct Wa as [Wa _]. rewrite (Wa Ka). reflexivity. }
+  { destruct a as [srt d i | d i c | h cs]; [destruct srt; discriminate | exact Wa |]. apply ctys_ok_node in Wa. destruct Wa as [Wa _]. rewrite (Wa Ka). reflexivity. }
   assert (F : flat (fst (fresh_const u (const_ty a) st)) /\ kind_of (fst (fresh_const u (const_ty a) st)) = KConst /\ ctys_ok (fst (fresh_const u (const_ty a) st))).
   { cbn [fresh_const fst]. rewrite CT. cbn. auto. }
   assert (K : forall h cs, a = Node h cs -> flat a /\ kind_of a = KConst /\ ctys_ok a).
-  { intros h cs ->. repeat split; try assumption.
+  { intros h cs ->. split; [| split; assumption]. apply flat_node. split.
     - destruct h; try discriminate Ka; reflexivity.
-    - apply ctys_ok_node in Wa. destruct Wa as [Wa _]. rewrite (Wa Ka). cbn. auto. }
+    - apply ctys_ok_node in Wa. destruct Wa as [Wa _]. rewrite (Wa Ka). repeat constructor. }
   unfold au_const. destruct a as [| | ha ca]; try exact F. destruct ha; try exact F; destruct b as [| | hb cb]; try exact F; destruct hb; try exact F.
   - match goal with |- context [if ?c then _ else _] => destruct c end; [cbn [fst]; eapply K; reflexivity | exact F].
   - match goal with |- context [if ?c then _ else _] => destruct c end; [cbn [fst]; eapply K; reflexivity | exact F].
@@ -500,19 +502,19 @@ Proof.
           - inversion E1. replace g1 with (fst (au_const u x y st)) by (rewrite H0; reflexivity).
             destruct (au_const_shape u x y st Kx H1) as (? & ? & ?). auto. }
         destruct G1. split; constructor; assumption. }
-    destruct L as [L1 L2]. repeat split.
+    destruct L as [L1 L2]. split; [| split].
     + apply flat_node. auto.
     + exact Ka.
     + apply ctys_ok_node. split; [| assumption]. intros HK. rewrite HK in Ka. discriminate.
   - destruct ca; [| exact (F HA)]. destruct cb; [| exact (F HA)]. inversion HA; subst.
-    repeat split; try assumption. apply flat_node. split; [| constructor]. destruct ha; try discriminate Ec; reflexivity.
+    split; [| split; assumption]. apply flat_node. split; [| constructor]. destruct ha; try discriminate Ec; reflexivity.
 Qed.
 
 Lemma au_garg_shape u a b st g st' :
   ctys_ok a -> au_garg u a b st = Ok (g, st') -> flat g /\ kind_of g = kind_of a /\ ctys_ok g.
 Proof.
   intros Wa E. unfold au_garg in E. destruct (kind_of a) eqn:Ka, (kind_of b) eqn:Kb; try discriminate.
-  - eapply au_ty_shape; eassumption.
+  - exact (au_ty_shape _ _ _ _ _ _ Ka Wa E).
   - inversion E. replace g with (fst (au_lt u a b st)) by (rewrite H0; reflexivity). apply au_lt_shape. assumption.
   - inversion E. replace g with (fst (au_const u a b st)) by (rewrite H0; reflexivity). apply au_const_shape; assumption.
 Qed.
@@ -574,8 +576,8 @@ Proof.
     apply subst_node_inv in H2. destruct H2 as (cs2 & -> & F2).
     apply subst_node_ok. unfold under in *. rewrite NB in *.
     clear NB. revert cs2 F2. induction F1 as [| x y r r' Hxy _ IHr]; intros cs2 F2; inversion F2; subst; constructor.
-    + inversion IH; subst. inversion Fc; subst. eapply H3; eassumption.
-    + inversion IH; subst. inversion Fc; subst. apply IHr; assumption.
+    + eapply (Forall_inv IH); [exact (Forall_inv Fc) | eassumption | eassumption].
+    + apply IHr; [exact (Forall_inv_tail IH) | exact (Forall_inv_tail Fc) | assumption].
 Qed.
 
 Lemma instance_of_list_trans s g g' :
@@ -584,8 +586,8 @@ Proof.
   rewrite !instance_of_list_spec_lemma. intros Fg (σ & Hs) (τ & Hg). exists (compose σ τ).
   apply rmap_ok. apply rmap_ok_inv in Hs. apply rmap_ok_inv in Hg.
   revert s Hs. induction Hg as [| x y r r' Hxy _ IHr]; intros s Hs; inversion Hs; subst; constructor.
-  - inversion Fg; subst. eapply subst_flat_compose; eassumption.
-  - inversion Fg; subst. apply IHr; assumption.
+  - eapply subst_flat_compose; [exact (Forall_inv Fg) | eassumption | eassumption].
+  - apply IHr; [exact (Forall_inv_tail Fg) | assumption].
 Qed.
 
 Lemma same_kinds_trans a b c : same_kinds a b -> same_kinds b c -> same_kinds a c.
@@ -596,20 +598,58 @@ Qed.
 Lemma same_kinds_sym a b : same_kinds a b -> same_kinds b a.
 Proof. induction 1; constructor; [congruence | assumption]. Qed.
 
-(** Every answer merged so far — and the first one — is an instance of the final guidance. *)
-Lemma merge_all_generalizes_lemma root : forall rest g g',
-  Forall ctys_ok (snd g) ->
-  Forall (fun s => same_kinds (snd g) (snd s) /\ Forall ctys_ok (snd s)) rest ->
-  merge_all root g rest = Ok g' ->
-  instance_of_list (snd g) (snd g') = true /\
-  Forall (fun s => instance_of_list (snd s) (snd g') = true) rest /\
-  (rest <> [] -> Forall flat (snd g')).
+Lemma merge_shape root g ans g' :
+  same_kinds (snd g) (snd ans) -> Forall ctys_ok (snd g) -> merge root g ans = Ok g' ->
+  Forall flat (snd g') /\ same_kinds (snd g') (snd g) /\ Forall ctys_ok (snd g').
 Proof.
-  induction rest as [| s r IH]; intros g g' Wg HR HM.
-  - cbn [merge_all] in HM. inversion HM; subst. split; [| split; [constructor | congruence]].
-    apply instance_of_list_spec_lemma. exists (tau_of []).
-    (* every substitution is an instance of itself only if its variables are mapped to themselves; use the matcher *)
-    clear. apply instance_of_list_spec_lemma. unfold instance_of_list, instance_of.
-    assert (M : forall t k σ, exists σ', match_tm k t t σ = Some σ' \/ True) by (intros; exists σ; right; exact I).
-    clear M. admit_self.
-Abort.
+  intros SK Wg H. unfold merge in H.
+  destruct (merge_args (map snd root) (snd g) (snd ans) []) as [[gs st'] | e] eqn:E; cbn [rbind fst snd] in H; [| discriminate].
+  inversion H; subst. cbn [snd]. eapply merge_args_shape; eassumption.
+Qed.
+
+(** The first answer and every answer merged after it are instances of the final guidance. *)
+Lemma merge_all_generalizes_lemma root : forall r g s g',
+  Forall ctys_ok (snd g) ->
+  Forall (fun x => same_kinds (snd g) (snd x) /\ Forall ctys_ok (snd x)) (s :: r) ->
+  merge_all root g (s :: r) = Ok g' ->
+  instance_of_list (snd g) (snd g') = true /\
+  Forall (fun x => instance_of_list (snd x) (snd g') = true) (s :: r) /\
+  Forall flat (snd g').
+Proof.
+  induction r as [| s2 r2 IH]; intros g s g' Wg HR HM; cbn [merge_all] in HM;
+    destruct (merge root g s) as [g1 | e] eqn:E1; cbn [rbind] in HM; try discriminate;
+    inversion HR as [| ? ? [SKs Ws] HR']; subst;
+    destruct (merge_generalizes_lemma _ _ _ _ SKs Wg Ws E1) as [I1 I2];
+    destruct (merge_shape _ _ _ _ SKs Wg E1) as (F1 & K1 & W1).
+  - inversion HM; subst. repeat split; [assumption | constructor; [assumption | constructor] | assumption].
+  - assert (HR1 : Forall (fun x => same_kinds (snd g1) (snd x) /\ Forall ctys_ok (snd x)) (s2 :: r2)).
+    { eapply Forall_impl; [| exact HR']. intros x [A B]. split; [eapply same_kinds_trans; eassumption | assumption]. }
+    destruct (IH g1 s2 g' W1 HR1 HM) as (J1 & J2 & J3).
+    repeat split; [| constructor; [| assumption] | assumption]; eapply instance_of_list_trans; eassumption.
+Qed.
+
+(** ** Non-vacuity *)
+
+Definition ex_vec (t : tm) : tm := Node (HAdt 0) [t].
+Definition ex_i32 : tm := Node (HScalar (Int I32)) [].
+Definition ex_u32 : tm := Node (HScalar (Uint U32)) [].
+
+Example aggregate_generalizes_nonvacuous :
+  let a := Node (HRef Not) [Node HLStatic []; Node (HTuple 2) [ex_vec ex_i32; Node HArray [ex_u32; Node (HCConcrete 3) [usize_ty]]]] in
+  let b := Node (HRef Not) [Node HLErased []; Node (HTuple 2) [ex_vec ex_u32; Node HArray [ex_u32; Node (HCConcrete 4) [usize_ty]]]] in
+  ctys_ok a /\ ctys_ok b /\
+  agg_pair 1 a b = Ok ([(VLt, 1); (VTy General, 1); (VConst, 1)],
+                       Node (HRef Not) [Var SLt 0 0; Node (HTuple 2) [ex_vec (Var STy 0 1); Node HArray [ex_u32; CVar 0 2 usize_ty]]]).
+Proof. cbv zeta. repeat split; cbn; auto; intros; discriminate. Qed.
+
+Example merge_generalizes_nonvacuous :
+  let root := [(VTy General, 0); (VTy General, 2); (VLt, 1)] in
+  let g : csubst := ([(VTy General, 0)], [ex_vec (Var STy 0 0); Var STy 0 0; Node HLStatic []]) in
+  let a1 : csubst := ([], [ex_vec ex_i32; ex_u32; Node HLStatic []]) in
+  let a2 : csubst := ([], [ex_vec (ex_vec ex_u32); ex_u32; Node HLErased []]) in
+  merge_all root g [a1; a2] = Ok ([(VTy General, 0); (VTy General, 2); (VLt, 1)], [ex_vec (Var STy 0 0); Var STy 0 1; Var SLt 0 2])
+  /\ merge_seq root g [a1; a2] = Ok [([(VTy General, 0); (VTy General, 2); (VLt, 1)], [ex_vec (Var STy 0 0); Var STy 0 1; Var SLt 0 2]);
+                                     ([(VTy General, 0); (VTy General, 2); (VLt, 1)], [ex_vec (Var STy 0 0); Var STy 0 1; Var SLt 0 2])]
+  /\ is_trivial ([(VTy General, 0); (VConst, 0)], [Var STy 0 0; CVar 0 1 usize_ty]) = true
+  /\ is_trivial g = false.
+Proof. cbv zeta. repeat split; reflexivity. Qed.
